@@ -173,6 +173,29 @@ def level2_superposition(repo, res):
             res.ob(f"SUM-SLICE:{norm(store)}", not probs, {"rule": "SUM-SLICE", "loop": norm(loop.iter), "store": norm(store), "delete": norm(delete), "length": norm(flat)})
             for node, msg in probs:
                 res.add(Finding("SUM-SLICE", WREL, "getBH_level2", node, msg, node.lineno))
+    # SUM-LEN: wherever a Collection's number of rows is computed (any form of the reduction), it is the length of the same flattening
+    #          that built the rows - `len(col)` counts direct children only (a nested collection is one child, many rows)
+    fsi = repo.func("magpylib._src.utility", "format_src_inputs")
+    flatteners = {(call_name(c2), tuple(ast.unparse(k.value) for k in c2.keywords)) for iff in ast.walk(fsi) if isinstance(iff, ast.If)
+                  and "Collection" in ast.unparse(iff.test) for c2 in ast.walk(ast.Module(body=iff.body, type_ignores=[]))
+                  if isinstance(c2, ast.Call) and c2.args and isinstance(c2.args[0], ast.Name) and (c2.keywords or len(c2.args) > 1)}
+    res.require(flatteners, "anchor vanished: the flattening call for Collection entries in format_src_inputs")
+    n_len = 0
+    for cond in ast.walk(fn):
+        if not (isinstance(cond, (ast.If, ast.IfExp)) and "isinstance" in ast.unparse(cond.test) and "Collection" in ast.unparse(cond.test)):
+            continue
+        tested = {x.id for x in ast.walk(cond.test) if isinstance(x, ast.Name)} - {"isinstance", "Collection"}
+        body = cond.body if isinstance(cond, ast.IfExp) else ast.Module(body=cond.body, type_ignores=[])
+        for c in ast.walk(body):
+            if isinstance(c, ast.Call) and call_name(c) == "len" and c.args and any(isinstance(x, ast.Name) and x.id in tested for x in ast.walk(c.args[0])):
+                n_len += 1
+                a = c.args[0]
+                ok = isinstance(a, ast.Call) and (call_name(a), tuple(ast.unparse(k.value) for k in a.keywords)) in flatteners
+                res.ob(f"SUM-LEN:{norm(c)}", ok, {"rule": "SUM-LEN", "length": norm(c), "flatteners_in_format_src_inputs": sorted(f[0] or "" for f in flatteners)})
+                if not ok:
+                    res.add(Finding("SUM-LEN", WREL, "getBH_level2", c, f"the number of rows of a Collection is taken as `{norm(c)}`, not as the length of the flattening that built "
+                                    "the rows in format_src_inputs: a nested collection is one child but several rows, so later entries are summed into the wrong rows", c.lineno))
+    res.require(n_len >= 1, "anchor vanished: no per-collection row count in getBH_level2")
     if not forms:
         res.undecided.append("SUM-SLICE: the collection row summation in getBH_level2 is not in the recognised sum-slice/delete-slice form; its index logic is not decided")
     import rules_memo
@@ -186,7 +209,7 @@ def level2_superposition(repo, res):
 
 def run(repo, res, tier):
     res.rules = ["excitation degree of B,H == 1", "LIN class: Lin proved, Affine violation, NonLin undecided",
-                 "SUM-AXIS/SUM-ORDER: sumup reduces axis 0 after pixel aggregation", "SUM-SLICE: collection rows summed and removed consistently",
+                 "SUM-AXIS/SUM-ORDER: sumup reduces axis 0 after pixel aggregation", "SUM-SLICE: collection rows summed and removed consistently", "SUM-LEN: collection row counts come from the flattener",
                  "MEMO: flattened collection views are not memoised without invalidation",
                  "SUM-OFFSET: loop-carried row offsets accumulate", "SUM-SIBLING: superposed sibling calls agree"]
     level2_superposition(repo, res)
